@@ -11,3 +11,11 @@ import glob
 for f in glob.glob('evidence/*.json'): jsonschema.validate(json.load(open(f)),json.load(open('/root/.vp/EVIDENCE.schema.json')))
 print('schemas ok')" || exit 1
 (cd lean && lake build 2>&1 | tail -1)
+# with --checks: every quick check once on /repo (about 5 min); any non-zero exit or VIOLATION line is printed
+if [ "$1" = "--checks" ]; then
+  for p in $(python3 -c "import json; print(' '.join(c['property_id'] for c in json.load(open('MANIFEST.json'))['checks']))"); do
+    out=$(./check $p 2>&1); rc=$?
+    [ $rc -ne 0 ] && echo "FAIL $p rc=$rc :: $(echo "$out" | tail -2 | cut -c1-300)"
+  done
+  echo "checks done"
+fi
